@@ -105,9 +105,9 @@ func H_C20_dirichlet_errors() {
 }
 
 // H_C20_dirichlet_errors_later: a parameter <= 0 at any position is an error.
-// bounds: n = 3; the first invalid parameter at position 1 or 2, the valid ones before it symbolic in [0.01,100]; rejection runs of the sampler bounded by the draw budget (at most 5 draws of math/rand per path)
+// bounds: n = 3; the first invalid parameter at position 1 or 2, the valid ones before it symbolic in [0.01,100]; at most 4 draws of math/rand per path (every valid variate before the error accepted at its first proposal, or one rejection when fewer draws are needed)
 // outside: longer rejection runs (they repeat the same loop body on fresh draws); IEEE rounding is outside the claim: floats are exact reals
-//verif: maxrand=5 maxsteps=200000
+//verif: maxrand=4 maxsteps=200000 timeout=60000
 func H_C20_dirichlet_errors_later() {
 	bad := nondetRange(1, 2)
 	factor := vfC20Factor()
@@ -128,7 +128,7 @@ func H_C20_dirichlet_errors_later() {
 // H_C20_dirichlet_unit: Dirichlet(factor, 1,...,1) (the call made by the weighted bootstrap; exponential variates): n strictly positive finite components summing to factor.
 // bounds: n in {3,4}; factor symbolic in (0,1e6]; every outcome of the draws with at most n+2 draws of math/rand per path (rejection loop "u <= 1e-7" cut after 2 extra draws in total: longer rejection runs repeat the same body on fresh draws)
 // outside: n > 4; IEEE rounding is outside the claim: floats are exact reals; ln uninterpreted (ln u < 0 on (0,1))
-//verif: maxrand=6 maxsteps=200000
+//verif: maxrand=6 maxsteps=200000 timeout=60000
 func H_C20_dirichlet_unit() {
 	n := nondetRange(3, 4)
 	factor := vfC20Factor()
@@ -140,7 +140,9 @@ func H_C20_dirichlet_unit() {
 	vfC20CheckSample(s, err, n, factor)
 }
 
-var vfC20ShapesOne = []float64{0.25, 0.5, 1.5, 4}
+// (0.3 and 0.7 rather than 1/4 and 1/2: with 1/alpha a small integer the engine expands u^(1/alpha)
+// into an exact polynomial and the queries become harder, measured)
+var vfC20ShapesOne = []float64{0.3, 0.7, 1.5, 4}
 
 func vfC20DirichletOne(shape float64) {
 	k := nondetRange(0, 2)
@@ -152,74 +154,98 @@ func vfC20DirichletOne(shape float64) {
 }
 
 // H_C20_dirichlet_one: Dirichlet with one non-unit shape (samplers for shape < 1 and > 1) among unit shapes, at any position: n strictly positive finite components summing to factor.
-// bounds: n = 3; one shape in {1/4, 1/2, 3/2, 4} at position 0, 1 or 2, the others 1; factor symbolic in (0,1e6]; at most 5 draws of math/rand per path (4 needed: one extra draw, i.e. one out-of-range / rejected uniform; a complete rejection of the two-draw samplers is covered for the sampler alone by H_C20_gamma and here by the thorough twin; longer rejection runs repeat the same body on fresh draws)
+// bounds: n = 3; one shape in {0.3, 0.7, 3/2, 4} at position 0, 1 or 2, the others 1; factor symbolic in (0,1e6]; at most 5 draws of math/rand per path (4 needed: one extra draw, i.e. one out-of-range / rejected uniform; a complete rejection of the two-draw samplers is covered for the sampler alone by H_C20_gamma and here by the thorough twin; longer rejection runs repeat the same body on fresh draws)
 // outside: arbitrary shapes (the sampler itself for every shape in [0.01,100]: H_C20_gamma; symbolic shape here: thorough twin); several non-unit shapes (H_C20_dirichlet_lt1, thorough twins); IEEE rounding and underflow are outside the claim: floats are exact reals; ln/exp/pow/sqrt uninterpreted (DESIGN.md §2.4)
-//verif: maxrand=5 maxsteps=200000
+//verif: maxrand=5 maxsteps=200000 timeout=120000 merge=0
 func H_C20_dirichlet_one() {
 	vfC20DirichletOne(vfC20ShapesOne[nondetRange(0, len(vfC20ShapesOne)-1)])
 }
 
-// H_C20_dirichlet_one_rej: as H_C20_dirichlet_one with at most 6 draws (one complete rejection of the non-unit sampler).
-// bounds: at most 6 draws per path
-// outside: IEEE rounding and underflow are outside the claim: floats are exact reals
-//verif: tier=thorough maxrand=6 maxsteps=200000 timeout=90000
+// H_C20_dirichlet_one_rej: as H_C20_dirichlet_one with at most 6 draws (one complete rejection of the non-unit sampler), for the shapes below 1.
+// bounds: the non-unit shape in {0.3, 0.7}; at most 6 draws per path
+// outside: a complete rejection of Cheng's sampler (shape > 1) inside Dirichlet: the solver returns unknown on "components sum to factor" (measured: 4 of 300 paths, 90 s query timeout); covered for the sampler alone by H_C20_gamma; IEEE rounding and underflow are outside the claim: floats are exact reals
+//verif: tier=thorough maxrand=6 maxsteps=200000 timeout=120000 merge=0
 func H_C20_dirichlet_one_rej() {
-	vfC20DirichletOne(vfC20ShapesOne[nondetRange(0, len(vfC20ShapesOne)-1)])
+	vfC20DirichletOne(vfC20ShapesOne[nondetRange(0, 1)])
 }
 
 // H_C20_dirichlet_one_deep: as H_C20_dirichlet_one with the non-unit shape symbolic.
-// bounds: the shape symbolic in [0.01,100]; at most 6 draws per path
+// bounds: the shape symbolic in [0.01,100]; at most 5 draws per path
 // outside: IEEE rounding and underflow are outside the claim: floats are exact reals
-//verif: tier=thorough maxrand=6 maxsteps=200000 timeout=60000
+//verif: tier=thorough maxrand=5 maxsteps=200000 timeout=60000
 func H_C20_dirichlet_one_deep() {
 	vfC20DirichletOne(vfC20Shape(0.01, 100))
 }
 
-var vfC20ShapesGe1 = []float64{1, 1.5, 4}
+var vfC20CombosGe1 = [][]float64{{1.5, 4, 1}, {1, 1.5, 1.5}, {4, 1, 4}, {1.5, 4, 1.5}}
 
-// H_C20_dirichlet_ge1: Dirichlet with every shape in {1, 3/2, 4} (Cheng's sampler above 1, the exponential at 1), every combination: n strictly positive finite components summing to factor.
-// bounds: n = 3; shapes in {1, 3/2, 4}^3; factor symbolic in (0,1e6]; at most 7 draws per path (3..6 needed)
-// outside: longer rejection runs; IEEE rounding is outside the claim: floats are exact reals
-//verif: tier=thorough maxrand=7 maxsteps=200000
+// H_C20_dirichlet_ge1: Dirichlet with shapes in {1, 3/2, 4} (Cheng's sampler above 1, the exponential at 1), four combinations with two or three shapes above 1: n strictly positive finite components summing to factor.
+// bounds: n = 3; shapes (3/2,4,1), (1,3/2,3/2), (4,1,4), (3/2,4,3/2); factor = 3 (symbolic factor: H_C20_dirichlet_unit, H_C20_dirichlet_one); at most 6 draws per path (5 or 6 needed)
+// outside: rejection runs; IEEE rounding is outside the claim: floats are exact reals
+//verif: tier=thorough maxrand=6 maxsteps=200000 timeout=60000
 func H_C20_dirichlet_ge1() {
-	factor := vfC20Factor()
-	alpha := make([]float64, 3)
-	for i := range alpha {
-		alpha[i] = vfC20ShapesGe1[nondetRange(0, 2)]
-	}
+	factor := 3.0
+	alpha := vfC20CombosGe1[nondetRange(0, len(vfC20CombosGe1)-1)]
 	s, err := Dirichlet(factor, alpha...)
 	vfC20CheckSample(s, err, 3, factor)
 }
 
 // H_C20_dirichlet_two: Dirichlet with two arbitrary shapes and one unit shape.
-// bounds: n = 3; shapes (a, b, 1) with a, b symbolic in [0.01,100]; factor symbolic in (0,1e6]; at most 6 draws per path (5 needed)
+// bounds: n = 3; shapes (a, b, 1) with a, b symbolic in [0.01,100]; factor = 3; at most 5 draws per path (3..5 needed)
 // outside: IEEE rounding and underflow are outside the claim: floats are exact reals
-//verif: tier=thorough maxrand=6 maxsteps=200000
+//verif: tier=thorough maxrand=5 maxsteps=200000 timeout=60000
 func H_C20_dirichlet_two() {
-	factor := vfC20Factor()
+	factor := 3.0
 	alpha := []float64{vfC20Shape(0.01, 100), vfC20Shape(0.01, 100), 1}
 	s, err := Dirichlet(factor, alpha...)
 	vfC20CheckSample(s, err, 3, factor)
 }
 
-// H_C20_dirichlet_lt1: Dirichlet with shapes below 1 (Kennedy & Gentle's sampler; Ahrens-Dieter GS): n strictly positive finite components summing to factor.
-// bounds: n = 3; shapes symbolic in [0.01,1); factor symbolic in (0,1e6]; at most 8 draws per path (3 components need 6)
-// outside: longer rejection runs; IEEE rounding and underflow are outside the claim: floats are exact reals (natively u^(1/alpha) underflows to 0 for small alpha)
-//verif: maxrand=8 maxsteps=200000
-func H_C20_dirichlet_lt1() {
+// (harnesses with concrete shapes below 1 run with merge=0: with merging the engine stops 9-11
+// paths with "engine error: merge replay failed: rand inside a merged region in stats.gamma")
+func vfC20DirichletLt1(symbolic bool) {
 	factor := vfC20Factor()
-	alpha := []float64{vfC20Shape(0.01, 1), vfC20Shape(0.01, 1), vfC20Shape(0.01, 1)}
+	alpha := make([]float64, 3)
 	for i := range alpha {
-		assume(alpha[i] < 1)
+		if symbolic {
+			alpha[i] = vfC20Shape(0.01, 1)
+			assume(alpha[i] < 1)
+		} else {
+			alpha[i] = []float64{0.3, 0.7}[nondetRange(0, 1)]
+		}
 	}
 	s, err := Dirichlet(factor, alpha...)
 	vfC20CheckSample(s, err, 3, factor)
 }
 
+// H_C20_dirichlet_lt1: Dirichlet with every shape below 1 (Kennedy & Gentle's sampler; Ahrens-Dieter GS): n strictly positive finite components summing to factor.
+// bounds: n = 3; shapes in {0.3, 0.7}^3; factor symbolic in (0,1e6]; at most 6 draws per path (6 needed: every variate accepted at its first proposal, through either branch of the sampler; rejections and symbolic shapes: thorough twins; the sampler alone for every shape: H_C20_gamma)
+// outside: rejection runs; IEEE rounding and underflow are outside the claim: floats are exact reals (natively u^(1/alpha) underflows to 0 for small alpha)
+//verif: maxrand=6 maxsteps=200000 timeout=60000 merge=0
+func H_C20_dirichlet_lt1() {
+	vfC20DirichletLt1(false)
+}
+
+// H_C20_dirichlet_lt1_deep: as H_C20_dirichlet_lt1 with symbolic shapes.
+// bounds: shapes symbolic in [0.01,1); at most 6 draws per path
+// outside: IEEE rounding and underflow are outside the claim: floats are exact reals
+//verif: tier=thorough maxrand=6 maxsteps=200000 timeout=90000
+func H_C20_dirichlet_lt1_deep() {
+	vfC20DirichletLt1(true)
+}
+
+// H_C20_dirichlet_lt1_rej: as H_C20_dirichlet_lt1 with at most 8 draws (one complete rejection).
+// bounds: at most 8 draws per path
+// outside: IEEE rounding and underflow are outside the claim: floats are exact reals
+//verif: tier=thorough maxrand=8 maxsteps=200000 timeout=90000 merge=0
+func H_C20_dirichlet_lt1_rej() {
+	vfC20DirichletLt1(false)
+}
+
 // K_C20_gamma_zero: demonstrates the known finding C20-gamma-returns-zero: the shape < 1 sampler returns exactly 0 (not a positive variate) when the generator returns 0.0.
 // bounds: shape 1/2, scale 1; at most 2 draws
 // outside: IEEE rounding is outside the claim: floats are exact reals
-//verif: known=C20-gamma-returns-zero maxrand=2 maxsteps=200000 expect=violation
+//verif: known=C20-gamma-returns-zero maxrand=2 maxsteps=200000 expect=violation timeout=60000
 func K_C20_gamma_zero() {
 	x := Gamma(0.5, 1)
 	verifReach("drawn")
@@ -229,7 +255,7 @@ func K_C20_gamma_zero() {
 // H_C20_gamma: stats.Gamma(alpha, beta): an accepted variate is finite and strictly positive, for the three samplers (shape > 1, = 1, < 1).
 // bounds: shape symbolic in [0.01,100], scale symbolic in (0,1000]; at most 4 draws per path (one full rejection)
 // outside: longer rejection runs; IEEE rounding is outside the claim: floats are exact reals
-//verif: maxrand=4 maxsteps=200000
+//verif: maxrand=4 maxsteps=200000 timeout=60000
 func H_C20_gamma() {
 	alpha := vfC20Shape(0.01, 100)
 	beta := nondetFloat()
